@@ -4,7 +4,7 @@ package main
 //
 // Case line:
 //   vsig <ver 0|2> <idx> <TX> <nin> { <prevtxid> <previndex> <hasNonWit> [TX] <hasWit> [script value]
-//        <redeem> <witscript> <sighashtype> <nsigs> { <present> [<pub> <sig>] } }
+//        <redeem> <witscript> <sighashtype>[:<finalscriptsig>:<finalscriptwitness>] <nsigs> { <present> [<pub> <sig>] } }
 //        <npriv> { <pub> <privkey> }
 //        <nkeys> { <pub> <ok> <compressed> <hash160(pub)> } <nder> { <der> <ok> }
 //        <ndig> { <algo 0|1> <inidx> <script> <amount> <ht> <digest> } <nver> { <compressed> <digest> <der> }
@@ -16,6 +16,8 @@ package main
 import (
 	"bufio"
 	"bytes"
+	"strconv"
+	"strings"
 	"crypto/sha256"
 	"encoding/hex"
 	"fmt"
@@ -45,6 +47,8 @@ type vsIn struct {
 	redeem    []byte // nil-able
 	witscript []byte // nil-able
 	sighash   uint32 // PInput.SighashType / Input.SigHashType (not read by the validator)
+	finalSig  []byte // FinalScriptSig (nil-able; not read by the validator)
+	finalWit  []byte // FinalScriptWitness (nil-able; not read by the validator)
 	sigs      []*vsSig
 }
 
@@ -71,8 +75,9 @@ func optHex(b []byte) string {
 	return hex.EncodeToString(b)
 }
 
-func (t *Toks) OptHex() []byte {
-	s := t.Next()
+func (t *Toks) OptHex() []byte { return optHexDecode(t.Next()) }
+
+func optHexDecode(s string) []byte {
 	switch s {
 	case "nil":
 		return nil
@@ -108,7 +113,18 @@ func readVs(t *Toks) *vsCase {
 		}
 		in.redeem = t.OptHex()
 		in.witscript = t.OptHex()
-		in.sighash = uint32(t.U64())
+		{
+			parts := strings.Split(t.Next(), ":")
+			v, err := strconv.ParseUint(parts[0], 10, 32)
+			if err != nil {
+				panic(err)
+			}
+			in.sighash = uint32(v)
+			if len(parts) == 3 {
+				in.finalSig = optHexDecode(parts[1])
+				in.finalWit = optHexDecode(parts[2])
+			}
+		}
 		ns := t.Int()
 		for j := 0; j < ns; j++ {
 			s := &vsSig{}
@@ -176,7 +192,11 @@ func (c *vsCase) writePacket(b *sb) {
 		}
 		b.add(optHex(in.redeem))
 		b.add(optHex(in.witscript))
-		b.addn(uint64(in.sighash))
+		if in.finalSig == nil && in.finalWit == nil {
+			b.addn(uint64(in.sighash))
+		} else {
+			b.add(strconv.FormatUint(uint64(in.sighash), 10) + ":" + optHex(in.finalSig) + ":" + optHex(in.finalWit))
+		}
 		b.addn(uint64(len(in.sigs)))
 		for _, s := range in.sigs {
 			if s.present {
@@ -236,6 +256,8 @@ func (c *vsCase) buildV0() *pset.Pset {
 			RedeemScript:   in.redeem,
 			WitnessScript:  in.witscript,
 			SighashType:    txscript.SigHashType(in.sighash),
+			FinalScriptSig:     in.finalSig,
+			FinalScriptWitness: in.finalWit,
 		}
 		for _, s := range in.sigs {
 			if !s.present {
@@ -269,6 +291,8 @@ func (c *vsCase) buildV2() *psetv2.Pset {
 			PreviousTxid:    in.prevTxid,
 			PreviousTxIndex: in.prevIndex,
 			SigHashType:     txscript.SigHashType(in.sighash),
+			FinalScriptSig:     in.finalSig,
+			FinalScriptWitness: in.finalWit,
 		}
 		if k < len(c.tx.Inputs) {
 			vi.Sequence = c.tx.Inputs[k].Sequence
@@ -1438,6 +1462,41 @@ func genVsCases(r *Rng, n int, w *bufio.Writer) {
 				corrupt(r, c, spends)
 			}
 		}
+		// an input that carries a final script next to its partial signatures (the parsers accept it)
+		if r.Chance(12) && c.idx < len(c.ins) {
+			setFinalScript(r, c.ins[c.idx])
+		} else if r.Chance(4) {
+			setFinalScript(r, c.ins[r.Intn(len(c.ins))])
+		}
+		c.attachPrivs()
+		fmt.Fprintln(w, c.line())
+	}
+}
+
+func setFinalScript(r *Rng, in *vsIn) {
+	if r.Bool() {
+		in.finalWit = r.Bytes(r.Pick(1, 34, 107))
+	} else {
+		in.finalSig = r.Bytes(r.Pick(1, 23, 106))
+	}
+}
+
+// generator "vfinal" (corpus): 1-3 inputs, one input with a final script next to its partial signatures, corrupted or not
+func genVsFinal(r *Rng, n int, w *bufio.Writer) {
+	defer func() { vsForceNin = 0 }()
+	for i := 0; i < n; i++ {
+		vsKeyLog = nil
+		vsForceNin = 1 + i%3
+		c, spends := genHonest(r)
+		var b sb
+		c.writePacket(&b)
+		c = parseVs(trimSp(b.String()))
+		if i%4 != 3 {
+			corruptKind(r, c, spends, []int{0, 6, 17}[i%4])
+		}
+		if c.idx < len(c.ins) {
+			setFinalScript(r, c.ins[c.idx])
+		}
 		c.attachPrivs()
 		fmt.Fprintln(w, c.line())
 	}
@@ -1500,6 +1559,7 @@ func init() {
 	runs["vhist"] = runVh
 	gens["vshapes"] = genVsShapes
 	gens["vmulti"] = genVsMulti
+	gens["vfinal"] = genVsFinal
 	gens["vreenc"] = genVsReenc
 	gens["disasm"] = genDisasmCases
 	runs["disasm"] = runDisasm
